@@ -13,19 +13,19 @@ use std::fmt::Write as _;
 use syn::*;
 
 #[derive(Clone, Debug, PartialEq)]
-enum Ty { U8, U32, U64, I32, I64, Bool, W(usize), RMode, Class, F64U, F32U, DecDigits, Generic(String), Tuple(Vec<Ty>), Unit, Unknown }
+enum Ty { U8, U32, U64, I32, I64, Bool, W(usize), RMode, Class, F64U, F32U, DecDigits, N, Generic(String), Tuple(Vec<Ty>), Unit, Unknown }
 
 impl Ty {
     fn lean(&self) -> String {
         match self {
             Ty::U8 => "UInt8".into(), Ty::U32 => "UInt32".into(), Ty::U64 => "UInt64".into(), Ty::I32 => "Int32".into(),
             Ty::I64 => "Int64".into(), Ty::Bool => "Bool".into(), Ty::W(n) => format!("U{}", n), Ty::RMode => "RoundingMode".into(), Ty::Class => "ClassTypes".into(),
-            Ty::F64U => "F64U".into(), Ty::F32U => "F32U".into(), Ty::DecDigits => "DecDigits".into(), Ty::Generic(g) => format!("{}'", g),
+            Ty::F64U => "F64U".into(), Ty::F32U => "F32U".into(), Ty::DecDigits => "DecDigits".into(), Ty::N => "Nat".into(), Ty::Generic(g) => format!("{}'", g),
             Ty::Tuple(v) => format!("({})", v.iter().map(|t| t.lean()).collect::<Vec<_>>().join(" × ")),
             Ty::Unit => "Unit".into(), Ty::Unknown => "_".into(),
         }
     }
-    fn is_int(&self) -> bool { matches!(self, Ty::U8 | Ty::U32 | Ty::U64 | Ty::I32 | Ty::I64) }
+    fn is_int(&self) -> bool { matches!(self, Ty::U8 | Ty::U32 | Ty::U64 | Ty::I32 | Ty::I64 | Ty::N) }
     fn of_int(&self) -> Option<&'static str> {
         match self { Ty::U8 => Some("UInt8.ofInt"), Ty::U32 => Some("UInt32.ofInt"), Ty::U64 => Some("UInt64.ofInt"),
                      Ty::I32 => Some("Int32.ofInt"), Ty::I64 => Some("Int64.ofInt"), _ => None }
@@ -46,7 +46,17 @@ struct Ctx {
     new_is_lh: bool,
 }
 
-type Env = HashMap<String, Ty>;
+/// variables in scope: Rust name -> type, and the Lean name when it had to be renamed (an inner `let` that shadows a
+/// variable of another type: Lean's `let mut` cannot be shadowed)
+#[derive(Clone, Default)]
+struct Env { tys: HashMap<String, Ty>, names: HashMap<String, String> }
+impl Env {
+    fn get(&self, k: &str) -> Option<&Ty> { self.tys.get(k) }
+    fn contains_key(&self, k: &str) -> bool { self.tys.contains_key(k) }
+    fn insert(&mut self, k: String, t: Ty) { self.names.remove(&k); self.tys.insert(k, t); }
+    fn insert_renamed(&mut self, k: String, t: Ty, lean: String) { self.names.insert(k.clone(), lean); self.tys.insert(k, t); }
+    fn lean(&self, k: &str) -> String { match self.names.get(k) { Some(n) => n.clone(), None => id(k) } }
+}
 
 const KEYWORDS: &[&str] = &["at", "by", "do", "end", "from", "fun", "have", "in", "let", "match", "open", "show", "then", "else", "if",
     "with", "where", "local", "section", "namespace", "instance", "def", "theorem", "example", "macro", "syntax", "import", "export",
@@ -68,7 +78,7 @@ fn ty_of_type(t: &Type) -> (Ty, bool) {
             let s = p.path.segments.last().unwrap().ident.to_string();
             let ty = match s.as_str() {
                 "u64" | "BID_UINT64" | "usize" => Ty::U64, "u32" | "BID_UINT32" | "_IDEC_flags" => Ty::U32, "u8" => Ty::U8,
-                "i32" => Ty::I32, "i64" | "BID_SINT64" => Ty::I64, "bool" => Ty::Bool,
+                "i32" => Ty::I32, "i64" | "BID_SINT64" => Ty::I64, "bool" => Ty::Bool, "u128" => Ty::N,
                 "BID_UINT128" | "d128" => Ty::W(128), "BID_UINT192" => Ty::W(192), "BID_UINT256" => Ty::W(256),
                 "BID_UINT384" => Ty::W(384), "BID_UINT512" => Ty::W(512), "RoundingMode" => Ty::RMode, "ClassTypes" => Ty::Class,
                 "BID_UI64DOUBLE" => Ty::F64U, "BID_UI32FLOAT" => Ty::F32U, "DEC_DIGITS" => Ty::DecDigits,
@@ -94,7 +104,7 @@ struct Out { lines: Vec<String> }
 #[derive(Clone)]
 enum Tail { No, Ret, Into(Expr) }
 
-struct FnCtx<'a> { cx: &'a mut Ctx, name: String, outs: Vec<String>, ret: Ty, tmp: usize, pre: Vec<String>, loops: Vec<Option<String>> }
+struct FnCtx<'a> { cx: &'a mut Ctx, name: String, outs: Vec<String>, ret: Ty, tmp: usize, pre: Vec<String>, loops: Vec<(Option<String>, Option<String>, Tail)> }
 
 macro_rules! bail { ($($t:tt)*) => { return Err(format!($($t)*)) } }
 type R<T> = std::result::Result<T, String>;
@@ -108,7 +118,9 @@ impl<'a> FnCtx<'a> {
     fn cast(&self, e: &Ex, to: &Ty) -> R<String> {
         if &e.ty == to && !e.untyped_lit { return Ok(e.s.clone()); }
         if let Ty::RMode = to { bail!("cast to RoundingMode") }
-        match to.of_int() { Some(f) => Ok(format!("({} (toI {}))", f, paren(&e.s))), None => bail!("cast to {:?}", to) }
+        // `u128` is only ever an intermediate for sums/products of 64-bit words: unbounded Nat (cannot wrap there)
+        if let Ty::N = to { return Ok(format!("(Int.toNat (toI {}))", paren(&e.s))); }
+        match to.of_int() { Some(f) => Ok(format!("({} (toI {}))", f, paren(&e.s))), None => bail!("cast to {:?} of {}", to, e.s) }
     }
 
     fn field_index(&self, e: &Expr) -> Option<(Expr, usize)> {
@@ -141,7 +153,7 @@ impl<'a> FnCtx<'a> {
             },
             Expr::Path(p) => {
                 let s = path_str(&p.path);
-                if let Some(t) = env.get(&s) { return Ok(ex(id(&s), t.clone(), false)); }
+                if let Some(t) = env.get(&s) { return Ok(ex(env.lean(&s), t.clone(), false)); }
                 if let Some(v) = s.strip_prefix("RoundingMode::") { return Ok(ex(format!("RoundingMode.{}", v), Ty::RMode, false)); }
                 if let Some(v) = s.strip_prefix("ClassTypes::") { return Ok(ex(format!("ClassTypes.{}", v), Ty::Class, false)); }
                 match s.as_str() {
@@ -296,6 +308,7 @@ impl<'a> FnCtx<'a> {
             Expr::MethodCall(mc) => {
                 let m = mc.method.to_string();
                 if m == "clone" && mc.args.is_empty() { return self.expr(&mc.receiver, env); }
+                if m == "count" { return self.count_while(mc, env); }
                 if m == "contains" {
                     if let Expr::Paren(p) = &*mc.receiver { if let Expr::Range(rg) = &*p.expr {
                         let x = self.expr(&mc.args[0], env)?;
@@ -339,6 +352,31 @@ impl<'a> FnCtx<'a> {
         }
     }
 
+    /// `TABLE[lo..=hi].iter().enumerate().take_while(|&(_, v)| COND).count()`
+    fn count_while(&mut self, mc: &ExprMethodCall, env: &Env) -> R<Ex> {
+        let tw = match &*mc.receiver { Expr::MethodCall(m) if m.method == "take_while" => m, _ => bail!(".count() of something else") };
+        let en = match &*tw.receiver { Expr::MethodCall(m) if m.method == "enumerate" => m, _ => bail!("take_while without enumerate") };
+        let it = match &*en.receiver { Expr::MethodCall(m) if m.method == "iter" => m, _ => bail!("enumerate without iter") };
+        let ix = match &*it.receiver { Expr::Index(ix) => ix, _ => bail!("iter of a non-slice") };
+        let tname = match &*ix.expr { Expr::Path(p) => path_str(&p.path), _ => bail!("slice of a non-table") };
+        let (elem, ndims) = match self.cx.tables.get(&tname) { Some(t) => (t.elem.clone(), t.dims.len()), None => bail!("slice of unknown table {}", tname) };
+        if ndims != 1 { bail!("slice of a nested table") }
+        let rg = match &*ix.index { Expr::Range(r) => r, _ => bail!("slice index") };
+        if !matches!(rg.limits, RangeLimits::Closed(_)) { bail!("half-open slice") }
+        let lo = lit_usize(rg.start.as_ref().ok_or("slice start")?).ok_or("slice start")?; let hi = lit_usize(rg.end.as_ref().ok_or("slice end")?).ok_or("slice end")?;
+        let cl = match &tw.args[0] { Expr::Closure(c) => c, _ => bail!("take_while argument") };
+        // pattern |&(_, v)|
+        let var = { let t = { let p = &cl.inputs[0]; quote::quote!(#p).to_string().replace(' ', "") };
+            let inner = t.trim_start_matches('&').trim_start_matches('(').trim_end_matches(')'); let parts: Vec<&str> = inner.split(',').collect();
+            if parts.len() != 2 || parts[0] != "_" { bail!("take_while closure pattern {}", t) } parts[1].to_string() };
+        let mut env2 = env.clone(); env2.insert(var.clone(), elem.clone());
+        let body = self.expr(&cl.body, &env2)?;
+        if body.m || body.ty != Ty::Bool { bail!("take_while closure body") }
+        let acc = match elem { Ty::U64 => "countWhile64", Ty::W(128) => "countWhile128", Ty::W(256) => "countWhile256", _ => bail!("take_while element type") };
+        self.cx.used_tables.insert(tname.clone());
+        Ok(ex(format!("(← {} Dec.Gen.{} {} {} (fun {} => {}))", acc, tname, lo, hi, id(&var), body.s), Ty::U64, true))
+    }
+
     fn block_value(&mut self, b: &Block, env: &Env) -> R<Ex> {
         if b.stmts.len() != 1 { bail!("block used as a value has {} statements", b.stmts.len()) }
         match &b.stmts[0] { Stmt::Expr(e, None) => self.expr(e, env), _ => bail!("block used as a value") }
@@ -349,12 +387,12 @@ impl<'a> FnCtx<'a> {
         match lhs {
             Expr::Paren(p) => self.assign_to(&p.expr, rhs, env),
             Expr::Unary(u) if matches!(u.op, UnOp::Deref(_)) => self.assign_to(&u.expr, rhs, env),
-            Expr::Path(p) => { let s = path_str(&p.path); if env.contains_key(&s) { Ok(format!("{} := {}", id(&s), rhs)) } else { bail!("assignment to unknown {}", s) } }
+            Expr::Path(p) => { let s = path_str(&p.path); if env.contains_key(&s) { Ok(format!("{} := {}", env.lean(&s), rhs)) } else { bail!("assignment to unknown {}", s) } }
             Expr::Index(_) => {
                 if let Some((base, k)) = self.field_index(lhs) {
                     let name = match strip_deref(&base) { Expr::Path(p) => path_str(&p.path), _ => bail!("assignment to nested field") };
                     if !env.contains_key(&name) { bail!("assignment to field of unknown {}", name) }
-                    Ok(format!("{n} := {{ {n} with w{k} := {rhs} }}", n = id(&name), k = k, rhs = rhs))
+                    Ok(format!("{n} := {{ {n} with w{k} := {rhs} }}", n = env.lean(&name), k = k, rhs = rhs))
                 } else { bail!("assignment to indexed place {}", quote::quote!(#lhs)) }
             }
             _ => bail!("assignment target {}", quote::quote!(#lhs)),
@@ -438,7 +476,16 @@ impl<'a> FnCtx<'a> {
                 _ => &[],
             };
             if has_be_cfg(attrs) { continue; }
-            if attrs.iter().any(|a| { let t = quote::quote!(#a).to_string(); t.contains("cfg") && !t.contains("target_endian") }) { bail!("statement under an unknown cfg") }
+            // cargo features are off in the build under test: `cfg(feature = ..)` statements do not exist, `cfg(not(feature = ..))` do
+            let mut skip = false;
+            for a in attrs.iter() {
+                let t = quote::quote!(#a).to_string().replace(' ', "");
+                if !t.contains("cfg") || t.contains("target_endian") { continue; }
+                if t.contains("cfg(feature=") { skip = true; }
+                else if t.contains("cfg(not(feature=") { }
+                else { bail!("statement under an unknown cfg {}", t) }
+            }
+            if skip { continue; }
             match s {
                 Stmt::Local(l) => self.local(l, env, ind, out)?,
                 Stmt::Expr(e, semi) => {
@@ -485,8 +532,15 @@ impl<'a> FnCtx<'a> {
                 self.flush(ind, out);
                 if let Some(prev) = env.get(&name) {
                     // Rust shadowing (`let mut C: T = C;`): Lean's `let mut` variables cannot be shadowed, and need not be
-                    if *prev != ty { bail!("local {} shadows a variable of another type", name) }
-                    out.lines.push(format!("{}{} := {}", ind, id(&name), init));
+                    if *prev != ty {
+                        // shadowing with another type: a fresh Lean variable for the rest of this scope
+                        self.tmp += 1;
+                        let lean = format!("{}_{}", name, self.tmp);
+                        out.lines.push(format!("{}let mut {} : {} := {}", ind, lean, ty.lean(), init));
+                        env.insert_renamed(name, ty, lean);
+                        return Ok(());
+                    }
+                    out.lines.push(format!("{}{} := {}", ind, env.lean(&name), init));
                     return Ok(());
                 }
                 out.lines.push(format!("{}let mut {} : {} := {}", ind, id(&name), ty.lean(), init));
@@ -504,7 +558,7 @@ impl<'a> FnCtx<'a> {
                 for (k, p) in pt.elems.iter().enumerate() {
                     let name = match p { Pat::Ident(pi) => pi.ident.to_string(), Pat::Wild(_) => continue, _ => bail!("tuple let pattern") };
                     let mut s = tmp.clone(); for _ in 0..k { s = format!("{}.2", s); } if k + 1 < nn { s = format!("{}.1", s); }
-                    if env.contains_key(&name) { out.lines.push(format!("{}{} := {}", ind, id(&name), s)); }
+                    if env.contains_key(&name) { out.lines.push(format!("{}{} := {}", ind, env.lean(&name), s)); }
                     else { out.lines.push(format!("{}let mut {} : {} := {}", ind, id(&name), tys[k].lean(), s)); env.insert(name, tys[k].clone()); }
                 }
                 Ok(())
@@ -547,6 +601,15 @@ impl<'a> FnCtx<'a> {
                 if let Expr::Field(f) = &*a.left {
                     if let Member::Named(n) = &f.member {
                         let base = self.expr(&f.base, env)?;
+                        if (base.ty == Ty::F64U && n == "ui64") || (base.ty == Ty::F32U && n == "ui32") {
+                            let want = if base.ty == Ty::F64U { Ty::U64 } else { Ty::U32 };
+                            let x = self.expr(&a.right, env)?;
+                            let v = if x.untyped_lit { format!("({} : {})", x.s, want.lean()) } else { if x.ty != want { bail!("union store of {:?}", x.ty) } x.s };
+                            let st = self.assign_to(&f.base, &format!("(⟨{}⟩ : {})", v, base.ty.lean()), env)?;
+                            self.flush(ind, out);
+                            out.lines.push(format!("{}{}", ind, st));
+                            return Ok(());
+                        }
                         if (base.ty == Ty::F64U && n == "d") || (base.ty == Ty::F32U && n == "d") {
                             let src = match &*a.right { Expr::Cast(c) => self.expr(&c.expr, env)?, Expr::Paren(p) => match &*p.expr { Expr::Cast(c) => self.expr(&c.expr, env)?, _ => bail!("float store of a non-cast") }, _ => bail!("float store of a non-cast") };
                             if !matches!(src.ty, Ty::U64 | Ty::U32 | Ty::U8) { bail!("float conversion from {:?}", src.ty) }
@@ -617,9 +680,9 @@ impl<'a> FnCtx<'a> {
                 if !self.pre.is_empty() { bail!("call with &mut arguments in a loop condition") }
                 out.lines.push(format!("{}for _ in [0:4096] do", ind));
                 out.lines.push(format!("{}if !{} then break", ind2, paren(&c)));
-                if w.label.is_some() { bail!("labelled loop") }
+                let wlabel = w.label.as_ref().map(|x| x.name.ident.to_string());
                 let mut env_b = env.clone();
-                self.loops.push(None);
+                self.loops.push((None, wlabel, Tail::No));
                 let r = self.stmts(&w.body.stmts, &mut env_b, &ind2, out, &Tail::No);
                 self.loops.pop();
                 r?;
@@ -629,11 +692,11 @@ impl<'a> FnCtx<'a> {
             }
             Expr::Unsafe(u) => { let mut env_b = env.clone(); self.stmts(&u.block.stmts, &mut env_b, ind, out, tail) }
             Expr::Loop(l) => {
-                if l.label.is_some() { bail!("labelled loop") }
+                let label = l.label.as_ref().map(|x| x.name.ident.to_string());
                 let marker = format!("brk__{}", { self.tmp += 1; self.tmp });
                 out.lines.push(format!("{}let mut {} : Bool := false", ind, marker));
                 out.lines.push(format!("{}for _ in [0:4096] do", ind));
-                self.loops.push(Some(marker.clone()));
+                self.loops.push((Some(marker.clone()), label, tail.clone()));
                 let mut env_b = env.clone();
                 let r = self.stmts(&l.body.stmts, &mut env_b, &ind2, out, &Tail::No);
                 self.loops.pop();
@@ -642,12 +705,24 @@ impl<'a> FnCtx<'a> {
                 Ok(())
             }
             Expr::Break(b) => {
-                if b.label.is_some() || b.expr.is_some() { bail!("labelled break / break with value") }
-                match self.loops.last() { Some(Some(m)) => { out.lines.push(format!("{}{} := true", ind, m)); } Some(None) => {} None => bail!("break outside a loop") }
+                // a label is fine as long as it names the innermost loop
+                if let Some(lb) = &b.label { match self.loops.last() { Some((_, Some(l), _)) if *l == lb.ident.to_string() => {}, _ => bail!("break to an outer loop") } }
+                let (marker, ltail) = match self.loops.last() { Some((m, _, t)) => (m.clone(), t.clone()), None => bail!("break outside a loop") };
+                if let Some(v) = &b.expr {
+                    // `break 'l value`: the loop is an expression; its value goes where the loop's value goes
+                    if matches!(ltail, Tail::No) { bail!("break with a value out of a loop whose value is not used") }
+                    let x = self.expr(v, env)?;
+                    self.deliver(&x, &ltail, env, ind, out)?;
+                    if matches!(ltail, Tail::Ret) { return Ok(()); }
+                }
+                if let Some(m) = marker { out.lines.push(format!("{}{} := true", ind, m)); }
                 out.lines.push(format!("{}break", ind));
                 Ok(())
             }
-            Expr::Continue(c) => { if c.label.is_some() { bail!("labelled continue") } out.lines.push(format!("{}continue", ind)); Ok(()) }
+            Expr::Continue(c) => {
+                if let Some(lb) = &c.label { match self.loops.last() { Some((_, Some(l), _)) if *l == lb.ident.to_string() => {}, _ => bail!("continue of an outer loop") } }
+                out.lines.push(format!("{}continue", ind)); Ok(())
+            }
             Expr::Return(r) => {
                 match &r.expr {
                     Some(x) => { if is_control(x) && !self.simple_value(x) { return self.stmt_expr(x, env, ind, out, &Tail::Ret); } let v = self.expr(x, env)?; self.deliver(&v, &Tail::Ret, env, ind, out) }
@@ -712,9 +787,13 @@ impl<'a> FnCtx<'a> {
             if !self.pre.is_empty() { bail!("call with &mut arguments in a match guard") }
             let body_ind = format!("{}  ", cur_ind);
             let mut env_a = env.clone();
-            let bound = if let Pat::Ident(pi) = &arm.pat { let nme = pi.ident.to_string(); if env_a.contains_key(&nme) { bail!("match binding shadows {}", nme) } env_a.insert(nme.clone(), sc.ty.clone()); Some(nme) } else { None };
+            let bound = if let Pat::Ident(pi) = &arm.pat {
+                let nme = pi.ident.to_string();
+                if env_a.contains_key(&nme) { self.tmp += 1; let lean = format!("{}_{}", nme, self.tmp); env_a.insert_renamed(nme.clone(), sc.ty.clone(), lean.clone()); Some(lean) }
+                else { env_a.insert(nme.clone(), sc.ty.clone()); Some(id(&nme)) }
+            } else { None };
             let emit_body = |this: &mut Self, out: &mut Out, env_a: &mut Env, bi: &str| -> R<()> {
-                if let Some(nme) = &bound { out.lines.push(format!("{}let mut {} : {} := {}", bi, id(nme), sc.ty.lean(), sc.s)); }
+                if let Some(nme) = &bound { out.lines.push(format!("{}let mut {} : {} := {}", bi, nme, sc.ty.lean(), sc.s)); }
                 let before = out.lines.len();
                 match &*arm.body { Expr::Block(b) => this.stmts(&b.block.stmts, env_a, bi, out, tail)?, other => this.stmt_expr(other, env_a, bi, out, tail)? }
                 if out.lines.len() == before { out.lines.push(format!("{}pure ()", bi)); }
@@ -842,7 +921,7 @@ fn main() {
         let sig = &cx.sigs[name];
         let outs: Vec<String> = sig.params.iter().filter(|p| p.2).map(|p| p.0.clone()).collect();
         let ret = sig.ret.clone();
-        let mut env: Env = HashMap::new();
+        let mut env: Env = Env::default();
         let mut header_params = Vec::new();
         let mut prologue = Vec::new();
         for (n, t, _m) in sig.params.iter() {
@@ -890,7 +969,7 @@ fn main() {
         let (ty, e) = cx.consts[&c].clone();
         let before = cx.used_consts.len();
         let mut fc = FnCtx { cx: &mut cx, name: c.clone(), outs: vec![], ret: Ty::Unit, tmp: 0, pre: vec![], loops: vec![] };
-        let env = HashMap::new();
+        let env = Env::default();
         match fc.expr(&e, &env) {
             Ok(x) => {
                 let deps: Vec<String> = fc.cx.used_consts[before..].to_vec();
